@@ -32,9 +32,9 @@ ASSUMPTIONS = [
     'nothing is demanded about which code a damaged file gets, only: a documented code or the empty string, no exception, within the step budget, file readable from the start afterwards',
     'TIF-marked LIS files whose first physical record is exactly 276 bytes are excluded from the healthy expectation (they share the BIT signature, as the property says)',
     'step budget counts Python-level events (PY_START + JUMP); a hang inside a C extension would surface as a wall-clock harness error',
-    'files <= 16 kB',
+    'files up to ~40 kB (big DAT preambles, LIS files of several hundred physical records)',
 ]
-PROBES = ['healthy_RP66V1', 'healthy_LIS', 'healthy_LISt', 'healthy_LIStr', 'healthy_LAS1.2', 'healthy_LAS2.0', 'healthy_BIT', 'healthy_DAT',
+PROBES = ['healthy_big_dat', 'healthy_lis_gt100_prs', 'healthy_RP66V1', 'healthy_LIS', 'healthy_LISt', 'healthy_LIStr', 'healthy_LAS1.2', 'healthy_LAS2.0', 'healthy_BIT', 'healthy_DAT',
           'foreign_detected', 'lis_probe_on_non_lis', 'dat_probe_on_ascii', 'budget_gt_half', 'from_path', 'random_bytes', 'damaged_still_identified',
           'damaged_unidentified', 'exception_class_seen']
 EXPECTED = {'dlis': 'RP66V1', 'dlis_phys': 'RP66V1', 'bit': 'BIT', 'dat': 'DAT'}
@@ -54,7 +54,7 @@ def base_bytes(gen):
     if gen['world'] == 'random':
         return seeds.Rng(seeds.derive('random-bytes', gen['seed'])).rbytes(gen['size']), [], {}
     by, fields, info = batch.file_content(gen)
-    return by[:16384], [f for f in fields if f[0] < 16384], info
+    return by, fields, info
 
 
 def expected_code(gen, by, info):
@@ -79,6 +79,11 @@ def generate(seed, tier):
     gen = {'world': fam, 'seed': rng.getrandbits(32)}
     if fam in ('dlis', 'lis', 'bit'):
         gen['frames'] = rng.pick([2, 6, 20])
+    if fam == 'lis' and rng.chance(0.25):
+        gen['small_pr'] = True           # > 100 physical records: the answer must not depend on size
+        gen['frames'] = rng.pick([40, 120])
+    if fam == 'dat' and rng.chance(0.3):
+        gen['big'] = True                # declarations + header + first row of several kB
     if fam == 'random':
         gen['size'] = rng.wpick([(1, 0), (2, rng.randrange(1, 13)), (3, rng.randrange(12, 400)), (2, rng.randrange(400, 4097))])
     by, fields, info = base_bytes(gen)
@@ -222,6 +227,10 @@ def execute(scenario):
                                       expected=want, got=code, **extra, **facts)
                     else:
                         res.probe('healthy_' + want)
+                        if gen.get('big'):
+                            res.probe('healthy_big_dat')
+                        if fam == 'lis' and sum(len(r_['prs']) for r_ in info['layout']['records']) > 100:
+                            res.probe('healthy_lis_gt100_prs')
             else:
                 if fired:
                     n_nontrivial += 1
